@@ -121,7 +121,7 @@ PROPS["C02"] = dict(
                "what turns 'the check was evaluated and true' into 'the peer holds the keys'.",
     code_names={1: "completed-with-fewer-than-two-certificates", 2: "completed-without-chain-validity-name-verification", 3: "completed-without-signed-key-exchange",
                 4: "completed-with-signature-not-valid-for-this-handshake", 5: "completed-with-wrong-Finished", 6: "refused-but-completion-reported-or-data-delivered",
-                7: "resumed-session-whose-certificates-fail-now"},
+                7: "resumed-session-whose-certificates-fail-now", 8: "resumed-with-a-peer-that-does-not-know-the-master-secret"},
     assumptions=["SM2 signatures and the PRF-based Finished cannot be produced without the private key / master secret"],
     trusted=["harness/internal/puppet (independent TLCP/DTLCP peer over gmsm primitives)", "smx509.Verify / sm2.VerifyASN1WithSM2 as oracles"],
 )
